@@ -6,6 +6,10 @@ package pstoremem
 // an explicit GC event and a white-box snapshot of the in-memory address book.
 
 import (
+	"fmt"
+	"reflect"
+	"sort"
+	"strings"
 	"time"
 
 	"github.com/libp2p/go-libp2p/core/peer"
@@ -19,6 +23,7 @@ type VerifEntry struct {
 	TTL    time.Duration
 	Expiry time.Time
 	InHeap bool // heapIndex != -1
+	Extra  string // fields of expiringAddr this shim does not know (see verifExtra)
 }
 
 // VerifRecord is one stored signed peer record.
@@ -34,6 +39,34 @@ type VerifSnapshot struct {
 	Heap    []VerifEntry  // everything in peerAddrs.expiringHeap
 	Records []VerifRecord // signedPeerRecords
 	Peers   int           // len(peerAddrs.Addrs)
+	Extra   string        // fields of memoryAddrBook / peerAddrs / peerRecordState this shim does not know
+}
+
+// verifExtra renders every field of the struct p points to whose name is not in known: a field that a later
+// version ADDS to the implementation joins the state key of the search automatically instead of being abstracted
+// away silently (same idea as seqmc.ExtraFields, repeated here because the shim must not import test machinery).
+func verifExtra(p any, known ...string) string {
+	v := reflect.ValueOf(p)
+	for v.Kind() == reflect.Pointer {
+		if v.IsNil() {
+			return ""
+		}
+		v = v.Elem()
+	}
+	if v.Kind() != reflect.Struct {
+		return ""
+	}
+	out := ""
+fields:
+	for i := 0; i < v.NumField(); i++ {
+		for _, k := range known {
+			if k == v.Type().Field(i).Name {
+				continue fields
+			}
+		}
+		out += fmt.Sprintf(" %s=%v", v.Type().Field(i).Name, v.Field(i))
+	}
+	return out
 }
 
 // VerifGC runs one garbage collection cycle (what the background ticker does every minute).
@@ -45,9 +78,13 @@ func (mab *memoryAddrBook) VerifSnapshot() VerifSnapshot {
 	defer mab.mu.RUnlock()
 	var s VerifSnapshot
 	s.Peers = len(mab.addrs.Addrs)
+	s.Extra = verifExtra(mab, "mu", "addrs", "signedPeerRecords", "maxUnconnectedAddrs", "maxSignedPeerRecords", "maxAddrsPerPeer",
+		"refCount", "cancel", "subManager", "clock") + verifExtra(&mab.addrs, "Addrs", "expiringHeap")
+	var rx []string
 	for _, m := range mab.addrs.Addrs {
 		for _, e := range m {
-			s.Entries = append(s.Entries, VerifEntry{Peer: e.Peer, Addr: e.Addr.Bytes(), TTL: e.TTL, Expiry: e.Expiry, InHeap: e.heapIndex != -1})
+			s.Entries = append(s.Entries, VerifEntry{Peer: e.Peer, Addr: e.Addr.Bytes(), TTL: e.TTL, Expiry: e.Expiry, InHeap: e.heapIndex != -1,
+				Extra: verifExtra(e, "Addr", "TTL", "Expiry", "Peer", "heapIndex")})
 		}
 	}
 	for _, e := range mab.addrs.expiringHeap {
@@ -55,6 +92,11 @@ func (mab *memoryAddrBook) VerifSnapshot() VerifSnapshot {
 	}
 	for p, r := range mab.signedPeerRecords {
 		s.Records = append(s.Records, VerifRecord{Peer: p, Seq: r.Seq, Envelope: r.Envelope})
+		if x := verifExtra(r, "Envelope", "Seq"); x != "" {
+			rx = append(rx, string(p)+x)
+		}
 	}
+	sort.Strings(rx)
+	s.Extra += strings.Join(rx, ";")
 	return s
 }
